@@ -99,12 +99,19 @@ pub fn dashes_leave_the_rest_alone(scene: &Scene) -> Result<Option<u64>, Violati
 }
 
 fn eval(path: &PathSpec, st: &StyleSpec) -> Result<Stat, Violation> {
+    eval_tol(path, st, 2e-3, "")
+}
+
+/// `tol`: how close to a vertex a dash boundary may fall before the case is left undecided. The
+/// general families use 2e-3 (the library's running f32 sums decide the side); the family with exact
+/// f32 arithmetic ("ulp | " replay prefix) uses 1e-7.
+fn eval_tol(path: &PathSpec, st: &StyleSpec, tol: f64, prefix: &str) -> Result<Stat, Violation> {
     let scene = scene_of(path, st);
-    let case = scene.to_string();
+    let case = format!("{}{}", prefix, scene);
     let got = super::common::render(&scene).map_err(|p| Violation::new("stroke/panic", case.clone(), p))?;
     let input = polylines_of(&path.build().ops);
     let arr: Vec<f64> = st.dash.iter().map(|d| *d as f64).collect();
-    let model = dash(&input, &arr, st.offset as f64, 2e-3);
+    let model = dash(&input, &arr, st.offset as f64, tol);
     let model = match model {
         None => {
             // total not positive: nothing painted
@@ -247,7 +254,7 @@ impl Check for C09 {
 
     fn run(&self, run: &Run) {
         let q = run.tier.quick();
-        run.rule("polylines (open with 1-3 segments, closed triangles and quadrilaterals, two-subpath paths) on an off-axis grid x dash arrays of 1..6 positive entries (entries longer than the whole path included) x offsets of both signs and large magnitude x caps / joins / widths; the dasher's output (hook) must equal the pieces of an independent arc-length dasher, and the pixels must match the stroke region of those pieces at a 0.75 px margin; arrays whose total is not positive paint nothing; non-trivial = case asserted (no dash boundary within 2e-3 of a vertex)");
+        run.rule("polylines (open with 1-3 segments, closed triangles and quadrilaterals, two-subpath paths) on an off-axis grid x dash arrays of 1..6 positive entries (entries longer than the whole path included) x offsets of both signs and large magnitude x caps / joins / widths; the dasher's output (hook) must equal the pieces of an independent arc-length dasher, and the pixels must match the stroke region of those pieces at a 0.75 px margin; arrays whose total is not positive paint nothing; non-trivial = case asserted (no dash boundary within 2e-3 of a vertex; 1e-7 in the exact-arithmetic family)");
         // irrational-ish vertex spacing keeps dash boundaries off the vertices
         let g: Vec<(f32, f32)> = vec![(5.3, 6.1), (19.7, 5.2), (33.9, 7.4), (6.8, 19.9), (20.1, 21.3), (34.2, 18.6), (4.9, 33.8), (18.8, 34.6), (33.1, 32.7)];
         let arrs = arrays(q);
@@ -461,6 +468,50 @@ impl Check for C09 {
                 }
             });
         }
+        // a dash that ends one to three floats in front of a vertex ends there: it does not reach the
+        // vertex, takes no join and does not turn the corner. Axis-aligned integer polylines and
+        // dyadic entries keep every length and every remaining length exact in f32, so the side of
+        // the vertex on which the boundary falls is decided, not a matter of rounding.
+        {
+            let below = |x: f32, k: u32| f32::from_bits(x.to_bits() - k);
+            // (path, array as a function of k)
+            let shapes: Vec<(Vec<POp>, Box<dyn Fn(u32) -> Vec<f32> + Sync>)> = vec![
+                (vec![POp::M(6., 8.), POp::L(22., 8.), POp::L(22., 30.)], Box::new(move |k| vec![below(16., k), 1000.])),
+                (vec![POp::M(30., 6.), POp::L(30., 22.), POp::L(8., 22.)], Box::new(move |k| vec![below(16., k), 1000.])),
+                (vec![POp::M(6., 30.), POp::L(6., 14.), POp::L(22., 14.), POp::L(22., 30.)], Box::new(move |k| vec![5., 3., below(24., k), 1000.])),
+                (vec![POp::M(8., 8.), POp::L(24., 8.), POp::L(24., 24.), POp::L(8., 24.), POp::Z], Box::new(move |k| vec![2., 44., below(18., k), 1000.])),
+                (vec![POp::M(8., 8.), POp::L(24., 8.), POp::L(24., 24.), POp::L(8., 24.), POp::Z, POp::L(30., 8.)], Box::new(move |k| vec![2., 44., below(18., k), 1000.])),
+            ];
+            run.bound("a dash ending a few floats in front of a vertex", format!("{} axis-aligned integer polylines (open with 2 and 3 segments, closed square with the dash ending in front of the closing point, the same with a tail) x entries 1..3 floats short of the vertex x 3 caps x 3 joins, width 6; exact f32 arithmetic, asserted with a vertex tolerance of 1e-7", shapes.len()));
+            run.par(shapes.len(), |s, l| {
+                let (ops, arr) = &shapes[s];
+                for k in 1..=3u32 {
+                    for cap in 0..3u8 {
+                        for join in 0..3u8 {
+                            let st = StyleSpec { width: 6.0, cap, join, miter: 4.0, dash: arr(k), offset: 0.0 };
+                            let path = PathSpec::new(ops.clone());
+                            l.states += 1;
+                            l.transitions += 2;
+                            l.traces += 1;
+                            l.evals += 1;
+                            match eval_tol(&path, &st, 1e-7, "ulp | ") {
+                                Ok(st) => {
+                                    l.outcome(st.hash);
+                                    if st.ambiguous {
+                                        l.count("cases_with_a_dash_boundary_on_a_vertex_not_asserted", 1);
+                                    } else {
+                                        l.nontrivial += 1;
+                                        l.count("pixels_asserted", st.asserted);
+                                        l.count("exact_arithmetic_cases_asserted", 1);
+                                    }
+                                }
+                                Err(v) => run.report(4000 + s, v),
+                            }
+                        }
+                    }
+                }
+            });
+        }
         // arrays whose total is not positive: nothing painted
         let bad: Vec<Vec<f32>> = vec![vec![0.], vec![0., 0.], vec![-1.], vec![5., -10.], vec![f32::NAN], vec![1., f32::NAN], vec![-3., 3.]];
         run.bound("non-positive totals", format!("{} arrays x 72 polylines x 3 offsets", bad.len()));
@@ -481,10 +532,14 @@ impl Check for C09 {
     }
 
     fn replay(&self, case: &str) -> Result<Option<Violation>, String> {
+        let (case, tol, prefix) = match case.strip_prefix("ulp | ") {
+            Some(rest) => (rest, 1e-7, "ulp | "),
+            None => (case, 2e-3, ""),
+        };
         let scene = parse_scene(case)?;
         for op in &scene.ops {
             if let Op::Stroke(p, st, _, _) = op {
-                return Ok(eval(p, st).err());
+                return Ok(eval_tol(p, st, tol, prefix).err());
             }
         }
         Err("no stroke in scene".into())
